@@ -640,6 +640,64 @@ def server_name_rules(chk):
     ])
 
 
+def start_chain_gets_server_name(chk, rule='start-chain-gets-server-name'):
+    """native x509-start-chain ( by_client -- ): the validator's start_chain() receives the engine's server_name whenever the
+    caller's flag is set, and the choice depends on that flag alone -- not on the connection's history (first handshake or
+    renegotiation, incrypt, session state): a renegotiated certificate validated against a NULL name is accepted for any host"""
+    for src, fn in (('src/ssl/ssl_hs_client.c', 'br_ssl_hs_client_run'), ('src/ssl/ssl_hs_server.c', 'br_ssl_hs_server_run')):
+        U = oblig.funit(src)
+        F = U.func(fn)
+        L = irf.Layouts(U.unit)
+        o_sn = L.field('br_ssl_engine_context', 'server_name')[0]
+        cs = [c for c in F.calls() if not c.get('callee') and (c.get('fty') or '') == 'void (%struct.br_x509_class_**, i8*)']
+        if len(cs) != 1:
+            raise AnalysisBroken('%s: %d start_chain-typed indirect calls in %s (expected 1)' % (rule, len(cs), fn))
+        c = cs[0]
+        inst = '%s x509-start-chain: name argument is by_client ? ENG->server_name : NULL' % fn
+        a = c['ops'][1]
+        ph = F.insts[a['v']] if a['k'] == 'i' else None
+        bl = {b['id']: b for b in F.blocks}
+
+        def bad(msg):
+            chk.violation(rule, inst, F.where(c), msg, key='%s %s' % (rule, fn))
+        if ph is None or ph['op'] != 'phi' or len(ph['ops']) != 2 or sorted(o['k'] for o in ph['ops']) != ['i', 'null']:
+            bad('the name argument is not a two-way choice between one address and NULL')
+            continue
+        k = 0 if ph['ops'][0]['k'] == 'i' else 1
+        addr, bname, bnull = ph['ops'][k], ph['inb'][k], ph['inb'][1 - k]
+        # address: a field at offset server_name of a br_ssl_engine_context rooted at the context parameter
+        o, hit = addr, False
+        for _ in range(8):
+            if o['k'] != 'i':
+                break
+            i = F.insts[o['v']]
+            if i['op'] == 'getelementptr' and i.get('off') == o_sn and not i.get('var'):
+                hit = True
+            if i['op'] not in ('getelementptr', 'bitcast') or i.get('var'):
+                break
+            o = i['ops'][0]
+        if not (hit and o == {'k': 'a', 'v': 0}):
+            bad('the non-NULL name is not &ENG->server_name')
+            continue
+        preds = [b for b in F.blocks if b['insts'][-1]['op'] == 'br' and any(x.get('k') == 'bb' and x['v'] in (bname, bnull) for x in b['insts'][-1]['ops'])]
+        t = preds[0]['insts'][-1] if len(preds) == 1 else None
+        if t is None or len(t['ops']) != 3 or {t['ops'][1]['v'], t['ops'][2]['v']} != {bname, bnull}:
+            bad('the choice is not made by a single two-way branch')
+            continue
+        cond = F.insts[t['ops'][0]['v']] if t['ops'][0]['k'] == 'i' else None
+        ok = False
+        if cond is not None and cond['op'] == 'icmp' and cond['pred'] in ('ne', 'eq') and cond['ops'][1] == {'k': 'c', 'v': 0, 'w': 32}:
+            x = F.strip_casts(cond['ops'][0])
+            if x['k'] == 'i' and F.insts[x['v']]['op'] == 'load':
+                base, off = F.addr_of(F.insts[x['v']]['ops'][0])
+                taken = t['ops'][2]['v'] if cond['pred'] == 'ne' else t['ops'][1]['v']      # raw operand order: cond, false, true
+                ok = base['k'] == 'i' and F.insts[base['v']]['op'] == 'phi' and F.insts[base['v']]['ty'] == 'i32*' and taken == bname
+        if ok:
+            chk.ok(rule, inst, F.where(c), 'phi [&ENG->server_name if the popped flag != 0, NULL otherwise]; the flag is a data-stack cell')
+        else:
+            bad('the condition that selects the name is not `popped flag != 0` alone (it reads other state, or is inverted)')
+
+
 def run(tier):
     chk = report.Check('C03', tier,
                        'Static necessary conditions: in both handshake interpreters every store that sets bit 0 of application_data is preceded, on '
@@ -670,6 +728,7 @@ def run(tier):
     hash_compare_shape(chk, 'src/ssl/ssl_hs_server.c', 'verify_CV_sig')
     chk.floor('rule instances', len(chk.obls), 30)
     server_choice_was_offered(chk)
+    start_chain_gets_server_name(chk)
     from .c10 import pkcs1_v15_template
     pkcs1_v15_template(chk)           # ServerKeyExchange / CertificateVerify RSA signatures: exact EMSA-PKCS1-v1_5 template
     from .c01 import transcript_follows_wire
